@@ -222,5 +222,634 @@ theorem abs_eq_nil_iff {q : Queue} (h : WFq q) : abs q = [] ↔ q = [] := by
     have := ((WFq_cons g r).1 h).1.1
     simp [abs_cons, this]
 
+/-! ## `push` and `build` -/
+
+theorem addOwner_ne_nil (os : List Nat) (o : Nat) : Queue.addOwner os o ≠ [] := by
+  unfold Queue.addOwner
+  split
+  · rename_i h; intro h0; simp [h0] at h
+  · simp
+
+theorem addOwner_nodup {os : List Nat} (h : os.Nodup) (o : Nat) : (Queue.addOwner os o).Nodup := by
+  unfold Queue.addOwner
+  split
+  · exact h
+  · rename_i hn
+    rw [List.nodup_append]
+    refine ⟨h, by simp, ?_⟩
+    intro a ha b hb
+    simp only [List.mem_singleton] at hb
+    subst hb
+    intro hab; subst hab; exact hn ha
+
+theorem addOwner_of_not_mem {os : List Nat} {o : Nat} (h : o ∉ os) : Queue.addOwner os o = os ++ [o] := by
+  simp [Queue.addOwner, h]
+
+@[simp] theorem push_nil (wr : Bool) (o : Nat) : Queue.push [] wr o = [⟨wr, [o]⟩] := rfl
+
+theorem push_cons_cons (g g' : Group) (rest : Queue) (wr : Bool) (o : Nat) :
+    Queue.push (g :: g' :: rest) wr o = g :: Queue.push (g' :: rest) wr o := rfl
+
+theorem push_single (g : Group) (wr : Bool) (o : Nat) :
+    Queue.push [g] wr o =
+      if wr = false ∧ g.wr = false then [⟨false, Queue.addOwner g.owners o⟩] else [g, ⟨wr, [o]⟩] := by
+  cases wr <;> cases hg : g.wr <;> simp [Queue.push, hg]
+
+/-- pushing never changes the access type of the front group -/
+theorem push_head_wr (g : Group) (rest : Queue) (wr : Bool) (o : Nat) :
+    ∃ g1 t, Queue.push (g :: rest) wr o = g1 :: t ∧ g1.wr = g.wr := by
+  cases rest with
+  | nil =>
+    rw [push_single]
+    split
+    · rename_i h; exact ⟨_, _, rfl, h.2.symm⟩
+    · exact ⟨_, _, rfl, rfl⟩
+  | cons g' r => exact ⟨_, _, push_cons_cons .., rfl⟩
+
+theorem push_wf {q : Queue} (h : WFq q) (wr : Bool) (o : Nat) : WFq (q.push wr o) := by
+  induction q with
+  | nil => simp [WFq]
+  | cons g rest ih =>
+    cases rest with
+    | nil =>
+      rw [push_single]
+      have hg := ((WFq_cons g []).1 h).1
+      split
+      · rename_i hc
+        rw [WFq_cons]
+        exact ⟨⟨addOwner_ne_nil _ _, addOwner_nodup hg.2.1 _, by simp⟩, by simp, trivial⟩
+      · rename_i hc
+        rw [WFq_cons, WFq_cons]
+        refine ⟨hg, ?_, ⟨by simp, by simp, by simp⟩, by simp, trivial⟩
+        intro g' hg'
+        simp only [List.head?_cons, Option.some.injEq] at hg'
+        subst hg'
+        intro hh; exact hc ⟨hh.2, hh.1⟩
+    | cons g' r =>
+      rw [push_cons_cons]
+      have h' := (WFq_cons g (g' :: r)).1 h
+      obtain ⟨g1, t, hp, hw⟩ := push_head_wr g' r wr o
+      rw [WFq_cons]
+      refine ⟨h'.1, ?_, ih h'.2.2⟩
+      intro g'' hg''
+      rw [hp] at hg''
+      simp only [List.head?_cons, Option.some.injEq] at hg''
+      subst hg''
+      rw [hw]
+      exact h'.2.1 g' rfl
+
+theorem foldl_push_wf (reqs : List Req) {q : Queue} (h : WFq q) :
+    WFq (reqs.foldl (fun q r => q.push r.1 r.2) q) := by
+  induction reqs generalizing q with
+  | nil => exact h
+  | cons r rs ih => exact ih (push_wf h r.1 r.2)
+
+/-! ### `RunsDistinct` -/
+
+theorem runsDistinct_iff (l : List Req) : runsDistinct l = true ↔ RunsDistinct l := by
+  induction l with
+  | nil => simp [runsDistinct, RunsDistinct]
+  | cons x t ih =>
+    obtain ⟨w, a⟩ := x
+    cases w <;> simp [runsDistinct, RunsDistinct, ih]
+
+theorem RunsDistinct_append_right {l1 l2 : List Req} (h : RunsDistinct (l1 ++ l2)) : RunsDistinct l2 := by
+  induction l1 with
+  | nil => exact h
+  | cons x t ih =>
+    obtain ⟨w, a⟩ := x
+    cases w with
+    | true => exact ih h
+    | false => exact ih h.2
+
+theorem RunsDistinct_append_left {l1 l2 : List Req} (h : RunsDistinct (l1 ++ l2)) : RunsDistinct l1 := by
+  induction l1 with
+  | nil => trivial
+  | cons x t ih =>
+    obtain ⟨w, a⟩ := x
+    cases w with
+    | true => exact ih h
+    | false => exact ⟨fun hm => h.1 (mem_leadReads_append_left l2 hm), ih h.2⟩
+
+theorem not_mem_of_RunsDistinct_reads {os : List Nat} {o : Nat}
+    (h : RunsDistinct (os.map (fun a => (false, a)) ++ [(false, o)])) : o ∉ os := by
+  induction os with
+  | nil => simp
+  | cons a as ih =>
+    have h1 : a ∉ leadReads (as.map (fun a => (false, a)) ++ [(false, o)]) := h.1
+    rw [leadReads_map_append] at h1
+    simp only [leadReads_read, leadReads_nil, List.mem_append, List.mem_singleton, not_or] at h1
+    simp only [List.mem_cons, not_or]
+    exact ⟨fun e => h1.2 e.symm, ih h.2⟩
+
+/-- pushing appends the request, provided a read is not already a member of the trailing run of reads -/
+theorem abs_push (q : Queue) (wr : Bool) (o : Nat) (h : RunsDistinct (abs q ++ [(wr, o)])) :
+    abs (q.push wr o) = abs q ++ [(wr, o)] := by
+  induction q with
+  | nil => simp [abs_cons]
+  | cons g rest ih =>
+    cases rest with
+    | nil =>
+      rw [push_single]
+      split
+      · rename_i hc
+        obtain ⟨hwr, hg⟩ := hc
+        subst hwr
+        have hn : o ∉ g.owners := by
+          apply not_mem_of_RunsDistinct_reads
+          simpa [abs_cons, hg] using h
+        simp [abs_cons, addOwner_of_not_mem hn, hg]
+      · simp [abs_cons]
+    | cons g' r =>
+      rw [push_cons_cons, abs_cons, abs_cons g, ih, List.append_assoc]
+      rw [abs_cons g, List.append_assoc] at h
+      exact RunsDistinct_append_right h
+
+theorem abs_foldl_push (reqs : List Req) (q : Queue) (h : RunsDistinct (abs q ++ reqs)) :
+    abs (reqs.foldl (fun q r => q.push r.1 r.2) q) = abs q ++ reqs := by
+  induction reqs generalizing q with
+  | nil => simp
+  | cons r rs ih =>
+    have h1 : RunsDistinct (abs q ++ [r]) := by
+      apply RunsDistinct_append_left (l2 := rs)
+      simpa using h
+    have hp : abs (q.push r.1 r.2) = abs q ++ [r] := abs_push q r.1 r.2 h1
+    rw [List.foldl_cons, ih (q.push r.1 r.2) (by rw [hp]; simpa using h), hp]
+    simp
+
+/-! ### program order -/
+
+/-- position of a request in program order: owners ascending, an owner's read before its write -/
+def key (r : Req) : Nat := 2 * r.2 + r.1.toNat
+
+theorem key_injective {r s : Req} (h : key r = key s) : r = s := by
+  obtain ⟨w1, o1⟩ := r
+  obtain ⟨w2, o2⟩ := s
+  cases w1 <;> cases w2 <;> simp [key] at h ⊢ <;> omega
+
+theorem programOrder_tail {r : Req} {rest : List Req} (h : programOrder (r :: rest) = true) :
+    programOrder rest = true := by
+  cases rest with
+  | nil => rfl
+  | cons s t =>
+    obtain ⟨w1, o1⟩ := r
+    obtain ⟨w2, o2⟩ := s
+    simp only [programOrder, Bool.and_eq_true] at h
+    exact h.2
+
+/-- in program order every later request has a strictly larger key -/
+theorem programOrder_key_lt {r : Req} {rest : List Req} (h : programOrder (r :: rest) = true) :
+    ∀ x ∈ rest, key r < key x := by
+  induction rest generalizing r with
+  | nil => simp
+  | cons s t ih =>
+    have hrs : key r < key s := by
+      obtain ⟨w1, o1⟩ := r
+      obtain ⟨w2, o2⟩ := s
+      simp only [programOrder, Bool.and_eq_true] at h
+      have h1 := h.1
+      cases w1 <;> cases w2 <;> simp [key] at h1 ⊢ <;> omega
+    intro x hx
+    rcases List.mem_cons.1 hx with hx | hx
+    · exact hx ▸ hrs
+    · exact Nat.lt_trans hrs (ih (programOrder_tail h) x hx)
+
+theorem programOrder_not_mem {r : Req} {rest : List Req} (h : programOrder (r :: rest) = true) : r ∉ rest :=
+  fun hm => Nat.lt_irrefl _ (programOrder_key_lt h r hm)
+
+theorem programOrder_nodup {reqs : List Req} (h : programOrder reqs = true) : reqs.Nodup := by
+  induction reqs with
+  | nil => exact List.nodup_nil
+  | cons r rest ih => exact List.nodup_cons.2 ⟨programOrder_not_mem h, ih (programOrder_tail h)⟩
+
+theorem programOrder_runsDistinct {reqs : List Req} (h : programOrder reqs = true) : RunsDistinct reqs := by
+  induction reqs with
+  | nil => trivial
+  | cons r rest ih =>
+    obtain ⟨w, o⟩ := r
+    cases w with
+    | true => exact ih (programOrder_tail h)
+    | false => exact ⟨fun hm => programOrder_not_mem h (mem_of_mem_leadReads hm), ih (programOrder_tail h)⟩
+
+/-! ## `canServe` / `removeSpec` at the request level -/
+
+theorem canServe_read_head (a : Nat) (t : List Req) (o : Nat) :
+    canServe ((false, a) :: t) false o = some (decide (o ∈ leadReads ((false, a) :: t))) ∧
+    canServe ((false, a) :: t) true o =
+      some (leadReads ((false, a) :: t) == [o] && (afterReads ((false, a) :: t)).head? == some (true, o)) := by
+  simp [canServe]
+
+theorem canServe_write_head (a : Nat) (t : List Req) (wr : Bool) (o : Nat) :
+    canServe ((true, a) :: t) wr o = some (wr && o == a) := rfl
+
+theorem removeSpec_read_head (a : Nat) (t : List Req) (o : Nat) :
+    removeSpec ((false, a) :: t) o =
+      if o ∈ leadReads ((false, a) :: t) then some (((false, a) :: t).erase (false, o)) else none := rfl
+
+theorem removeSpec_write_head (a : Nat) (t : List Req) (o : Nat) :
+    removeSpec ((true, a) :: t) o = if o = a then some t else none := rfl
+
+theorem removable_iff (p : List Req) (o : Nat) :
+    removable p o = true ↔ p.head? = some (true, o) ∨ o ∈ leadReads p := by
+  cases p with
+  | nil => simp [removable, removeSpec]
+  | cons x t =>
+    obtain ⟨w, a⟩ := x
+    cases w with
+    | true =>
+      simp only [removable, removeSpec_write_head, List.head?_cons, leadReads_write, List.not_mem_nil, or_false]
+      by_cases h : o = a
+      · simp [h]
+      · simp [h]; exact fun e => h e.symm
+    | false =>
+      simp only [removable, removeSpec_read_head]
+      by_cases h : o ∈ leadReads ((false, a) :: t)
+      · rw [if_pos h]; simpa using h
+      · rw [if_neg h]; simpa using h
+
+/-- what a permitted removal removes: the head write, or the owner's read in the leading run -/
+theorem removeSpec_eq_some_iff (p p' : List Req) (o : Nat) :
+    removeSpec p o = some p' ↔
+      (p = (true, o) :: p') ∨ (o ∈ leadReads p ∧ p' = p.erase (false, o)) := by
+  cases p with
+  | nil => simp [removeSpec]
+  | cons x t =>
+    obtain ⟨w, a⟩ := x
+    cases w with
+    | true =>
+      simp only [removeSpec_write_head, leadReads_write, List.not_mem_nil, false_and, or_false]
+      by_cases h : o = a
+      · subst h; simp
+      · simp [h]; intro e; exact absurd e.symm h
+    | false =>
+      simp only [removeSpec_read_head]
+      by_cases h : o ∈ leadReads ((false, a) :: t)
+      · rw [if_pos h]
+        constructor
+        · intro e; exact Or.inr ⟨h, (Option.some.inj e).symm⟩
+        · rintro (e | ⟨_, e⟩)
+          · simp at e
+          · rw [e]
+      · rw [if_neg h]
+        constructor
+        · intro e; simp at e
+        · rintro (e | ⟨hm, _⟩)
+          · simp at e
+          · exact absurd hm h
+
+theorem removeSpec_sublist {p p' : List Req} {o : Nat} (h : removeSpec p o = some p') : p'.Sublist p := by
+  rcases (removeSpec_eq_some_iff p p' o).1 h with h | ⟨_, h⟩
+  · subst h; exact List.sublist_cons_self _ _
+  · subst h; exact List.erase_sublist
+
+theorem removeSpec_length {p p' : List Req} {o : Nat} (h : removeSpec p o = some p') :
+    p'.length + 1 = p.length := by
+  rcases (removeSpec_eq_some_iff p p' o).1 h with h | ⟨hm, h⟩
+  · subst h; simp
+  · subst h
+    have hm' := mem_of_mem_leadReads hm
+    rw [List.length_erase_of_mem hm']
+    have : 0 < p.length := List.length_pos_of_mem hm'
+    omega
+
+theorem exists_removable {p : List Req} (h : p ≠ []) : ∃ o, removable p o = true := by
+  cases p with
+  | nil => exact absurd rfl h
+  | cons x t =>
+    obtain ⟨w, a⟩ := x
+    refine ⟨a, (removable_iff _ _).2 ?_⟩
+    cases w <;> simp
+
+/-- the three ways of being servable, and nothing else -/
+theorem canServe_eq_some_true_iff (p : List Req) (wr : Bool) (o : Nat) :
+    canServe p wr o = some true ↔
+      (wr = false ∧ o ∈ leadReads p) ∨
+      (wr = true ∧ (p.head? = some (true, o) ∨
+        (leadReads p = [o] ∧ (afterReads p).head? = some (true, o)))) := by
+  cases p with
+  | nil => cases wr <;> simp [canServe]
+  | cons x t =>
+    obtain ⟨w, a⟩ := x
+    cases w with
+    | true =>
+      rw [canServe_write_head]
+      cases wr with
+      | false => simp
+      | true => simp; exact eq_comm
+    | false =>
+      cases wr with
+      | false => rw [(canServe_read_head a t o).1]; simp
+      | true => rw [(canServe_read_head a t o).2]; simp
+
+theorem mem_of_canServe {p : List Req} {wr : Bool} {o : Nat} (h : canServe p wr o = some true) :
+    (wr, o) ∈ p := by
+  rcases (canServe_eq_some_true_iff p wr o).1 h with ⟨hw, hm⟩ | ⟨hw, hh | ⟨_, hh⟩⟩
+  · subst hw; exact mem_of_mem_leadReads hm
+  · subst hw; exact List.mem_of_mem_head? hh
+  · subst hw; exact mem_of_mem_afterReads (List.mem_of_mem_head? hh)
+
+theorem removable_of_canServe {p : List Req} {wr : Bool} {o : Nat} (h : canServe p wr o = some true) :
+    removable p o = true := by
+  rw [removable_iff]
+  rcases (canServe_eq_some_true_iff p wr o).1 h with ⟨_, hm⟩ | ⟨_, hh | ⟨hl, _⟩⟩
+  · exact Or.inr hm
+  · exact Or.inl hh
+  · right; rw [hl]; simp
+
+theorem canServe_of_removable {p : List Req} {o : Nat} (h : removable p o = true) :
+    canServe p true o = some true ∨ canServe p false o = some true := by
+  rcases (removable_iff p o).1 h with h | h
+  · exact Or.inl ((canServe_eq_some_true_iff p true o).2 (Or.inr ⟨rfl, Or.inl h⟩))
+  · exact Or.inr ((canServe_eq_some_true_iff p false o).2 (Or.inl ⟨rfl, h⟩))
+
+/-- both requests of one owner servable at once = the self-dependency shape -/
+theorem own_pair_shape {p : List Req} {o : Nat} (hr : canServe p false o = some true)
+    (hw : canServe p true o = some true) : ∃ rest, p = (false, o) :: (true, o) :: rest := by
+  rcases (canServe_eq_some_true_iff p true o).1 hw with ⟨h, _⟩ | ⟨_, hh | hh⟩
+  · cases h
+  · rcases (canServe_eq_some_true_iff p false o).1 hr with ⟨_, hm⟩ | ⟨h, _⟩
+    · cases p with
+      | nil => simp at hh
+      | cons x t =>
+        simp only [List.head?_cons, Option.some.injEq] at hh
+        subst hh; simp at hm
+    · cases h
+  · exact (own_read_write_iff p o).1 hh
+
+theorem removeSpec_own_pair (o : Nat) (rest : List Req) :
+    removeSpec ((false, o) :: (true, o) :: rest) o = some ((true, o) :: rest) ∧
+    removeSpec ((true, o) :: rest) o = some rest := by
+  simp [removeSpec]
+
+/-! ## refinement of `canAccess` and `dequeue` -/
+
+theorem canAccess_refines {q : Queue} (h : WFq q) (wr : Bool) (o : Nat) :
+    q.canAccess wr o = canServe (abs q) wr o := by
+  cases q with
+  | nil => rfl
+  | cons g rest =>
+    cases hw : g.wr with
+    | true =>
+      obtain ⟨o', ho', habs⟩ := write_front h hw
+      rw [habs, canServe_write_head]
+      cases wr with
+      | false => simp [Queue.canAccess, hw]
+      | true => simp [Queue.canAccess, hw, ho']; rw [Bool.eq_iff_iff]; simp
+    | false =>
+      obtain ⟨habs, hl, ha⟩ := read_front h hw
+      have hne := ((WFq_cons g rest).1 h).1.1
+      obtain ⟨a, as, hcons⟩ := List.exists_cons_of_ne_nil hne
+      have hshape : abs (g :: rest) = (false, a) :: (as.map (fun o => (false, o)) ++ abs rest) := by
+        rw [habs, hcons]; rfl
+      have hcs := canServe_read_head a (as.map (fun o => (false, o)) ++ abs rest) o
+      rw [← hshape, hl, ha] at hcs
+      cases wr with
+      | false => rw [hcs.1]; simp [Queue.canAccess, hw]
+      | true =>
+        rw [hcs.2]
+        rcases behind_read h hw with h0 | ⟨g2, r, o2, hrest, ho2, h2⟩
+        · subst h0; simp [Queue.canAccess, hw]
+        · subst hrest
+          rw [h2]
+          simp [Queue.canAccess, hw, ho2]
+          congr 1
+          rw [Bool.eq_iff_iff]; simp only [decide_eq_true_eq, beq_iff_eq, Prod.mk.injEq, true_and]
+          exact eq_comm
+
+theorem map_erase_read (os : List Nat) (o : Nat) (l : List Req) (h : o ∈ os) :
+    (os.map (fun a => (false, a)) ++ l).erase (false, o) = (os.erase o).map (fun a => (false, a)) ++ l := by
+  induction os with
+  | nil => simp at h
+  | cons a as ih =>
+    by_cases e : a = o
+    · subst e; simp
+    · have h' : o ∈ as := by
+        rcases List.mem_cons.1 h with h | h
+        · exact absurd h.symm e
+        · exact h
+      have e' : ((false, a) : Req) ≠ (false, o) := by simp [e]
+      simp only [List.map_cons, List.cons_append]
+      rw [List.erase_cons_tail (by simpa using e'), List.erase_cons_tail (by simpa using e), ih h']
+      simp
+
+theorem dequeue_refines {q : Queue} (h : WFq q) (o : Nat) :
+    (q.dequeue o).map abs = removeSpec (abs q) o := by
+  cases q with
+  | nil => rfl
+  | cons g rest =>
+    cases hw : g.wr with
+    | true =>
+      obtain ⟨o', ho', habs⟩ := write_front h hw
+      rw [habs, removeSpec_write_head]
+      by_cases e : o = o' <;> simp [Queue.dequeue, ho', e]
+    | false =>
+      obtain ⟨habs, hl, ha⟩ := read_front h hw
+      have hne := ((WFq_cons g rest).1 h).1.1
+      obtain ⟨a, as, hcons⟩ := List.exists_cons_of_ne_nil hne
+      have hshape : abs (g :: rest) = (false, a) :: (as.map (fun o => (false, o)) ++ abs rest) := by
+        rw [habs, hcons]; rfl
+      have hrs := removeSpec_read_head a (as.map (fun o => (false, o)) ++ abs rest) o
+      rw [← hshape, hl] at hrs
+      rw [hrs]
+      by_cases hm : o ∈ g.owners
+      · rw [if_pos hm, habs, map_erase_read _ _ _ hm]
+        simp only [Queue.dequeue, if_pos hm]
+        by_cases he : (g.owners.erase o).isEmpty = true
+        · simp [List.isEmpty_iff.1 he]
+        · simp [he, abs_cons, hw]
+      · simp [Queue.dequeue, hm]
+
+theorem dequeue_wf {q q' : Queue} {o : Nat} (h : WFq q) (hd : q.dequeue o = some q') : WFq q' := by
+  cases q with
+  | nil => simp [Queue.dequeue] at hd
+  | cons g rest =>
+    have h' := (WFq_cons g rest).1 h
+    by_cases hm : o ∈ g.owners
+    · simp only [Queue.dequeue, if_pos hm] at hd
+      by_cases he : (g.owners.erase o).isEmpty = true
+      · simp only [he, if_true, Option.some.injEq] at hd
+        subst hd; exact h'.2.2
+      · simp only [he, Bool.false_eq_true, if_false, Option.some.injEq] at hd
+        subst hd
+        rw [WFq_cons]
+        refine ⟨⟨?_, h'.1.2.1.erase o, ?_⟩, h'.2.1, h'.2.2⟩
+        · intro e; exact he (List.isEmpty_iff.2 e)
+        · intro hw
+          exfalso
+          apply he
+          have hl : g.owners.length = 1 := h'.1.2.2 hw
+          have := List.length_erase_of_mem hm
+          rw [List.isEmpty_iff, ← List.length_eq_zero_iff]
+          omega
+    · simp [Queue.dequeue, hm] at hd
+
+/-! ## histories -/
+
+@[simp] theorem runHistory_nil (q : Queue) : runHistory q [] = some q := by
+  cases q <;> rfl
+
+theorem runHistory_cons (q : Queue) (o : Nat) (os : List Nat) :
+    runHistory q (o :: os) = (q.dequeue o).bind (fun q' => runHistory q' os) := by
+  rw [runHistory]
+  cases q.dequeue o <;> rfl
+
+@[simp] theorem runSpec_nil (p : List Req) : runSpec p [] = some p := by
+  cases p <;> rfl
+
+theorem runSpec_cons (p : List Req) (o : Nat) (os : List Nat) :
+    runSpec p (o :: os) = (removeSpec p o).bind (fun p' => runSpec p' os) := by
+  rw [runSpec]
+  cases removeSpec p o <;> rfl
+
+theorem runHistory_append (q : Queue) (os1 os2 : List Nat) :
+    runHistory q (os1 ++ os2) = (runHistory q os1).bind (fun q' => runHistory q' os2) := by
+  induction os1 generalizing q with
+  | nil => simp
+  | cons o os ih =>
+    rw [List.cons_append, runHistory_cons, runHistory_cons]
+    cases q.dequeue o with
+    | none => rfl
+    | some q' => simp [ih]
+
+theorem runHistory_wf {q q' : Queue} {os : List Nat} (h : WFq q) (hr : runHistory q os = some q') : WFq q' := by
+  induction os generalizing q with
+  | nil => simp at hr; exact hr ▸ h
+  | cons o os ih =>
+    rw [runHistory_cons] at hr
+    cases hd : q.dequeue o with
+    | none => simp [hd] at hr
+    | some q1 =>
+      rw [hd] at hr
+      exact ih (dequeue_wf h hd) hr
+
+theorem runHistory_refines {q : Queue} (h : WFq q) (os : List Nat) :
+    (runHistory q os).map abs = runSpec (abs q) os := by
+  induction os generalizing q with
+  | nil => simp
+  | cons o os ih =>
+    rw [runHistory_cons, runSpec_cons, ← dequeue_refines h]
+    cases hd : q.dequeue o with
+    | none => rfl
+    | some q1 => simpa using ih (dequeue_wf h hd)
+
+theorem runSpec_sublist {p p' : List Req} {os : List Nat} (h : runSpec p os = some p') : p'.Sublist p := by
+  induction os generalizing p with
+  | nil => simp at h; exact h ▸ List.Sublist.refl _
+  | cons o os ih =>
+    rw [runSpec_cons] at h
+    cases hr : removeSpec p o with
+    | none => simp [hr] at h
+    | some p1 =>
+      rw [hr] at h
+      exact (ih h).trans (removeSpec_sublist hr)
+
+theorem runSpec_length {p p' : List Req} {os : List Nat} (h : runSpec p os = some p') :
+    p'.length + os.length = p.length := by
+  induction os generalizing p with
+  | nil => simp at h; simp [h]
+  | cons o os ih =>
+    rw [runSpec_cons] at h
+    cases hr : removeSpec p o with
+    | none => simp [hr] at h
+    | some p1 =>
+      rw [hr] at h
+      have := ih h
+      have := removeSpec_length hr
+      simp only [List.length_cons]
+      omega
+
+theorem permittedHistory_iff (p : List Req) (os : List Nat) :
+    PermittedHistory p os ↔ (runSpec p os).isSome = true := by
+  induction os generalizing p with
+  | nil => simp [PermittedHistory]
+  | cons o os ih =>
+    rw [PermittedHistory, runSpec_cons, removable]
+    cases hr : removeSpec p o with
+    | none => simp
+    | some p1 => simp [ih]
+
+/-- no dead-lock at the request level: any pending list can be emptied by permitted removals -/
+theorem exists_runSpec_empty (p : List Req) : ∃ os, runSpec p os = some [] := by
+  generalize hn : p.length = n
+  induction n generalizing p with
+  | zero => exact ⟨[], by simp [List.length_eq_zero_iff.1 hn]⟩
+  | succ n ih =>
+    have hne : p ≠ [] := by intro e; simp [e] at hn
+    obtain ⟨o, ho⟩ := exists_removable hne
+    rw [removable, Option.isSome_iff_exists] at ho
+    obtain ⟨p1, hp1⟩ := ho
+    have := removeSpec_length hp1
+    obtain ⟨os, hos⟩ := ih p1 (by omega)
+    exact ⟨o :: os, by rw [runSpec_cons, hp1]; exact hos⟩
+
+/-! ## the oldest pending request, in terms of the registered sequence -/
+
+theorem sublist_tail_of_cons_sublist_append {α : Type} {x : α} {t pre post : List α}
+    (hs : (x :: t).Sublist (pre ++ x :: post)) (hx : x ∉ pre) : t.Sublist post := by
+  induction pre with
+  | nil => exact List.cons_sublist_cons.1 hs
+  | cons a as ih =>
+    have hax : x ≠ a := fun e => hx (by simp [e])
+    have hx' : x ∉ as := fun hm => hx (List.mem_cons_of_mem _ hm)
+    rw [List.cons_append] at hs
+    cases hs with
+    | cons _ h => exact ih h hx'
+    | cons_cons _ h => exact absurd rfl hax
+
+/-- Let `pending` be what is left (an order-preserving sublist) of the duplicate-free registered sequence `reqs`.
+A pending request is the oldest pending one iff every request registered before it has been removed. -/
+theorem head_iff_earlier_removed {α : Type} {reqs pending : List α} (hnd : reqs.Nodup)
+    (hsub : pending.Sublist reqs) (x : α) :
+    pending.head? = some x ↔
+      x ∈ pending ∧ ∀ pre post, reqs = pre ++ x :: post → ∀ r ∈ pre, r ∉ pending := by
+  constructor
+  · intro hh
+    obtain ⟨t, rfl⟩ : ∃ t, pending = x :: t := by
+      cases pending with
+      | nil => simp at hh
+      | cons y t => simp at hh; exact ⟨t, by rw [hh]⟩
+    refine ⟨by simp, ?_⟩
+    rintro pre post rfl r hr hrp
+    rw [List.nodup_append] at hnd
+    obtain ⟨_, hnd2, hdis⟩ := hnd
+    have hx : x ∉ pre := fun hm => hdis x hm x (by simp) rfl
+    have ht := sublist_tail_of_cons_sublist_append hsub hx
+    rcases List.mem_cons.1 hrp with e | hrt
+    · exact hx (e ▸ hr)
+    · exact hdis r hr r (List.mem_cons_of_mem _ (ht.subset hrt)) rfl
+  · rintro ⟨hx, hall⟩
+    cases pending with
+    | nil => simp at hx
+    | cons h t =>
+      by_cases e : h = x
+      · simp [e]
+      · exfalso
+        have hxt : x ∈ t := by
+          rcases List.mem_cons.1 hx with e' | e'
+          · exact absurd e'.symm e
+          · exact e'
+        obtain ⟨pre, post, hreqs⟩ := List.append_of_mem (hsub.subset hx)
+        subst hreqs
+        have hh : h ∉ pre := fun hm => hall pre post rfl h hm (by simp)
+        have ht := sublist_tail_of_cons_sublist_append (x := h) (t := t) (pre := pre) (post := post)
+        -- `h :: t` is a sublist of `pre ++ x :: post` with `h ∉ pre`, `h ≠ x`: so `h :: t` sits inside `post`
+        have hs2 : (h :: t).Sublist post := by
+          have h1 : (h :: t).Sublist (x :: post) := by
+            clear ht hall
+            induction pre with
+            | nil => simpa using hsub
+            | cons a as ih =>
+              have hha : h ≠ a := fun e => hh (by simp [e])
+              rw [List.cons_append] at hsub hnd
+              cases hsub with
+              | cons _ h' => exact ih (List.nodup_cons.1 hnd).2 h' (fun hm => hh (List.mem_cons_of_mem _ hm))
+              | cons_cons _ h' => exact absurd rfl hha
+          cases h1 with
+          | cons _ h' => exact h'
+          | cons_cons _ h' => exact absurd rfl e
+        have hxpost : x ∈ post := hs2.subset (List.mem_cons_of_mem _ hxt)
+        rw [List.nodup_append] at hnd
+        exact (List.nodup_cons.1 hnd.2.1).1 hxpost
+
 end QueueLemmas
 end ProcSim
